@@ -49,13 +49,13 @@ func alphabets(tier string) alphabet {
 		Ports: []string{"", ":80", ":8080"},
 		Paths: []string{"/", "", "/a/./b/../c", "/%7Ea", "/a b", "/a;p=1", "//a"},
 		Queries: []string{"", "?a=1", "?a=1&b=2", "?b=2&a=1", "?a=1&a=2", "?a=1&b=2&c=3", "?a=1&b=2&a=3", "?a=1;b=2", "?a", "?a=&b",
-			"?a=b%20c", "?a=b+c", "?"},
+			"?a=b%20c", "?a=b+c", "?", "?n=/a:b,c%20", "?u=x/y&u=caf%C3%A9"}, // the last two: a pair that ends in an escape and holds bytes the URL standard keeps and form-encoding rewrites
 		Frags:      []string{"", "#f", "#"},
 		Wraps:      []wrap{{"", ""}, {`"`, `"`}, {"", " "}},
 		AbsParents: []string{""},
 		Segs:       []string{"x", ".", ".."},
 		SegDepth:   3,
-		RelQueries: []string{"", "?k=v", "?b=2&a=1", "?a=1;b=2", "?a"},
+		RelQueries: []string{"", "?k=v", "?b=2&a=1", "?a=1;b=2", "?a", "?n=/a:b,c%20"},
 		RelFrags:   []string{"", "#f", "#"}, // "#" = an empty fragment: present, nothing in it
 		RelWraps:   []wrap{{"", ""}, {`'`, `'`}},
 		RelParents: parents,
